@@ -1078,6 +1078,25 @@ fn main() {
                         };
                         let as_caller = comp::component_text(sig, COMP, &["p", "q", "x"], comp::ISO_PROBES.len(), b, body.as_deref(), caller_escapes);
                         let as_definer = comp::component_text(sig, COMP, &["p", "q", "x"], comp::ISO_PROBES.len(), b, body.as_deref(), !caller_escapes);
+                        // "rendering a component through the API gives the same text as the equivalent
+                        // call from a template": the equivalent API call passes the calling template's
+                        // escaping mode as its flag, whatever the mode of the defining template
+                        // (seeded change C05-3: nested VM built on the defining template)
+                        if !supplied.iter().any(|(_, v)| *v == V::Undef) {
+                            let actx = ctx_of(&supplied);
+                            let aout = engine::to_out(engine::guarded(|| tera.render_component(COMP, &actx, body.as_deref(), caller_escapes)));
+                            if let Out::Ok(atext) = &aout {
+                                if comp::site_wrap(Site::Top, atext) != *s {
+                                    acc.violation(
+                                        "api-vs-template:mixed-escape",
+                                        format!("template call from a {call_ext} template rendered {s:?}; render_component(.., autoescape={caller_escapes}) rendered {atext:?}"),
+                                        &case,
+                                    );
+                                }
+                            } else {
+                                acc.violation("api-vs-template:mixed-escape", format!("template call rendered {s:?}, render_component gave {}", aout.show()), &case);
+                            }
+                        }
                         if *s == comp::site_wrap(Site::Top, &as_caller.text) {
                             "bound:component-output-in-callers-mode".into()
                         } else if *s == comp::site_wrap(Site::Top, &as_definer.text) {
